@@ -52,6 +52,7 @@ def run(chk):
         "non-trivial = at least one impl with a signal block or one service; distinct = schema text")
     refl = get_reflection_schema().unwrap()
     cases, meta, fails = [], [], []
+    nsplit = 0
     for _ in range(n):
         # enumerator values beyond i32 (known finding enum-value-i32) in about one schema in six only, so that most records are compared in full
         desc = gen_schema.gen_desc(chk.rng, "serde", max_fields=4, depth=2, max_enum_bits=40 if chk.rng.random() < 0.25 else 30)
@@ -89,6 +90,31 @@ def run(chk):
                     same = False
                 if not same and not any(not (-2 ** 31 <= x.value < 2 ** 31) for e in fcp.enums for x in e.enumeration):
                     why = "the decoded record does not list the schema's declarations with the declared values (the encoding is lossy)"
+        if why is None and desc.get("services") and nsplit < (12 if quick else 200):
+            # the same schema with its services (and devices) kept in a module of their own: the record of the split schema lists what
+            # the single-file schema declares
+            nsplit += 1
+            import front_run, shutil
+            main = dict(desc, services=[], devices=[])
+            mod = {"enums": [], "structs": [], "impls": [], "services": desc["services"], "devices": desc.get("devices", [])}
+            files = {"main.fcp": gen_schema.render(main) + "\nmod rpc.services;\n", "rpc/services.fcp": gen_schema.render(mod)}
+            wd = common.scratch_dir("verif_c12_")
+            try:
+                out = front_run.run_front(files, workdir=wd)
+            finally:
+                shutil.rmtree(wd, ignore_errors=True)
+            chk.hist("split", out[0])
+            if out[0] != "ok":
+                why = f"the schema with its services in a module is not accepted: {str(out[1])[:200]}"
+            else:
+                try:
+                    if listing_of_record(out[1].reflection()) != independent_listing(fcp):
+                        why = "the record of the schema split into main file + module (services, devices) does not list what the single-file schema declares"
+                except Exception as e:
+                    why = f"reflection of the split schema raised {e!r}"
+            if why:
+                fails.append({"kind": "reflection", "schema": text, "files": files, "why": why})
+                continue
         big_enum = any(not (-2 ** 31 <= x.value < 2 ** 31) for e in fcp.enums for x in e.enumeration)
         if big_enum and chk.find_known("enum-value-i32"):
             # known finding: the only admissible failure is a record that differs exactly at the wrapped enumerator values
